@@ -38,7 +38,11 @@ func VfH_pos() {
 	c1 := vfBytes("a", n1)
 	c2 := vfBytes("b", n2)
 	fset := NewFileSet()
-	f1 := fset.AddFile("a.wa", -1, n1)
+	// file a is registered with spare capacity (as the LSP/playground do for files that
+	// are edited in place) and an arbitrary initial size, then given its content
+	isz := vfInt("initialSize")
+	vfAssume(isz >= 0 && isz <= n1)
+	f1 := fset.AddFileWithCap("a.wa", -1, isz, 4)
 	f1.SetLinesForContent(c1)
 	f2 := fset.AddFile("b.wa", -1, n2)
 	f2.SetLinesForContent(c2)
